@@ -1,6 +1,6 @@
 (* C04: no drift, trigger errors, run-once, the initial fire time. *)
 From Coq Require Import ZArith List Bool String Lia.
-Require Import QzSched.Gen.Params QzSched.SchedModel QzSched.Registry QzSched.ApiProofs QzSched.FetchProofs
+Require Import QzSched.Gen.Params QzSched.SchedModel QzSched.Registry QzSched.ApiProofs QzSched.WfProofs QzSched.FetchProofs
                QzSched.LtsDefs QzSched.LtsProofs QzSched.C08Proofs QzSched.Triggers.
 Import ListNotations.
 Open Scope Z_scope.
